@@ -26,7 +26,7 @@ type Program struct {
 var defaultInitAllow = []string{
 	"github.com/jcmoraisjr/haproxy-ingress/",
 	"strings", "strconv", "sort", "unicode", "unicode/utf8", "container/list",
-	"time", "bytes", "path", "slices", "maps", "cmp",
+	"time", "bytes", "path", "slices", "maps", "cmp", "io",
 	"k8s.io/apimachinery/pkg/labels", "k8s.io/apimachinery/pkg/selection",
 	"k8s.io/apimachinery/pkg/util/validation", "k8s.io/apimachinery/pkg/util/validation/field",
 	"k8s.io/apimachinery/pkg/util/sets", "k8s.io/apimachinery/pkg/api/errors",
